@@ -131,6 +131,10 @@ def gen_case(rng, tier, params=None):
         style = cfg.weighted(styles)
         wl = {"kind": "graph", "family": fam,
               "blocks": graphgen.gen_graph(rng.fork("graph"), fam, n, style)}
+        if focus in ("C15", "C18") and rng.fork("prior").chance(0.15):
+            # the generator has served other graphs before this one (seeded change
+            # C15-6: the top-level region is then not `meta_region_0`)
+            wl["prior_graphs"] = rng.fork("prior-n").randint(1, 3)
     faults = cfg.chance(0.7)
     if focus == "C04":
         # the stage pipeline with name requests interleaved and path probes:
